@@ -124,6 +124,9 @@ def make_post(name):
                 _fail(name, 'accounting', 'labels %r -> %r' % (dict(lb),
                                                                dict(la)))
                 return
+            if Cur.pre_split is not None:
+                # a top node put on a split tree is there after raising too
+                Cur.pre_split = Cur.pre_split + Counter({'TOP': 1})
         elif name == 'boyd_split':
             exp = Counter()
             for n in before.nodes():
@@ -339,8 +342,14 @@ def shard(ctx):
             [['punctuation_symetrify', {}]], [['root_attach', {}]],
             [['collapse_unary_chains', {}], ['uncollapse_unary_chains', {}]],
             [['punctuation_root', {}], ['root_attach', {}]], []])
-        kind = rng.choice(['split', 'split', 'split', 'binarize', 'collapse'])
-        if kind == 'split':
+        kind = rng.choice(['split', 'split', 'split', 'binarize', 'collapse',
+                           'split-top-raise'])
+        if kind == 'split-top-raise':
+            # a new root is put on top of the split tree before it is raised
+            seq = ([['root_attach', {}]] if rng.random() < 0.6 else []) + \
+                [mark(), ['boyd_split', {}], ['add_topnode', {}],
+                 ['raising', {}]]
+        elif kind == 'split':
             once = [mark(), ['boyd_split', {}], ['raising', {}]]
             seq = ([['root_attach', {}]] if rng.random() < 0.6 else []) + \
                 once + between + [mark(), ['boyd_split', {}], ['raising', {}]]
